@@ -3,6 +3,7 @@ package core
 import (
 	"bytes"
 	"encoding/binary"
+	"fmt"
 )
 
 // The specification works on abstract key / value ids. A Profile is the
@@ -21,22 +22,29 @@ type Profile struct {
 	Name    string
 	KeyLen  int   // length of ordinary keys (>= 2)
 	ValLens []int // value id v (>0) has length ValLens[v % len]; every entry >= 4
+	Text    bool  // keys and values are printable ASCII ("k00012...", "v0000034..."): usable on a command line
 }
 
 // Profiles for page size ps.
 func Profiles(ps int) []Profile {
 	return []Profile{
-		{"tiny", 2, []int{4, 5, 8}},
-		{"small", 8, []int{16, 4, 40}},
-		{"quarter", 12, []int{ps/4 - 40, ps / 4, ps/4 + 40, 8}}, // around the inline threshold
-		{"half", 40, []int{ps/2 - 60, ps / 3, 20, ps / 2}},      // two keys per leaf
-		{"page", 16, []int{ps - 80, ps + 10, 30, 2*ps + 100}},   // overflow pages
-		{"bigkey", ps/2 - 8, []int{8, ps / 8, 4}},               // branch pages split early
-		{"mixed", 24, []int{4, ps / 5, ps + ps/2, 60, 3*ps + 7, ps / 3}},
+		{"tiny", 2, []int{4, 5, 8}, false},
+		{"small", 8, []int{16, 4, 40}, false},
+		{"quarter", 12, []int{ps/4 - 40, ps / 4, ps/4 + 40, 8}, false}, // around the inline threshold
+		{"half", 40, []int{ps/2 - 60, ps / 3, 20, ps / 2}, false},      // two keys per leaf
+		{"page", 16, []int{ps - 80, ps + 10, 30, 2*ps + 100}, false},   // overflow pages
+		{"bigkey", ps/2 - 8, []int{8, ps / 8, 4}, false},               // branch pages split early
+		{"mixed", 24, []int{4, ps / 5, ps + ps/2, 60, 3*ps + 7, ps / 3}, false},
 	}
 }
 
+// TextProfile: printable keys and values, so that the command-line tool can name buckets and keys.
+func TextProfile(ps int) Profile { return Profile{"text", 10, []int{12, 40, ps / 3, 9}, true} }
+
 func ProfileByName(ps int, name string) Profile {
+	if name == "text" {
+		return TextProfile(ps)
+	}
 	for _, p := range Profiles(ps) {
 		if p.Name == name {
 			return p
@@ -52,6 +60,13 @@ func (p Profile) Key(id int) []byte {
 	if id >= BigKey {
 		b := make([]byte, 32769)
 		binary.BigEndian.PutUint16(b, uint16(0xFFF0))
+		return b
+	}
+	if p.Text {
+		b := []byte(fmt.Sprintf("k%05d", id))
+		for i := len(b); i < p.KeyLen; i++ {
+			b = append(b, byte('a'+(i+id)%23))
+		}
 		return b
 	}
 	n := p.KeyLen
@@ -76,6 +91,16 @@ func (p Profile) KeyID(b []byte) int {
 	if len(b) > 32768 {
 		return BigKey
 	}
+	if p.Text {
+		id := 0
+		if len(b) < 6 || b[0] != 'k' {
+			return Unknown
+		}
+		if _, err := fmt.Sscanf(string(b[1:6]), "%05d", &id); err != nil || !bytes.Equal(p.Key(id), b) {
+			return Unknown
+		}
+		return id
+	}
 	if len(b) < 2 {
 		return Unknown
 	}
@@ -91,6 +116,13 @@ func (p Profile) Val(id int) []byte {
 		return []byte{}
 	}
 	n := p.ValLens[id%len(p.ValLens)]
+	if p.Text {
+		b := []byte(fmt.Sprintf("v%07d", id))
+		for i := len(b); i < n; i++ {
+			b = append(b, byte('A'+(i*7+id*13)%26))
+		}
+		return b
+	}
 	if n < 4 {
 		n = 4
 	}
@@ -106,6 +138,16 @@ func (p Profile) Val(id int) []byte {
 func (p Profile) ValID(b []byte) int {
 	if len(b) == 0 {
 		return 0
+	}
+	if p.Text {
+		id := 0
+		if len(b) < 8 || b[0] != 'v' {
+			return Unknown
+		}
+		if _, err := fmt.Sscanf(string(b[1:8]), "%07d", &id); err != nil || id <= 0 || !bytes.Equal(p.Val(id), b) {
+			return Unknown
+		}
+		return id
 	}
 	if len(b) < 4 {
 		return Unknown
